@@ -496,5 +496,5 @@ def crash_events(ctx, rc, out, label):
     if not frames:
         raise Inconclusive("harness %s crashed in the harness itself:\n%s" % (label, seg[:4000]))
     first = seg.splitlines()[0][:300]
-    return [{"ev": "Reset", "n": 0, "w": 1, "limited": False, "script": [], "exact": False, "crash": True},
+    return [{"ev": "Reset", "n": 0, "w": 1, "limited": False, "script": [], "exact": False, "crash": True, "delayUs": 0, "replies": 0},
             {"ev": "Crash", "kind": kind, "text": first, "frames": frames[:8]}]
